@@ -246,6 +246,28 @@ def run(prog, ctx):
                 continue
             l = lhs.strip()
             lct = l.j.get("ct", "")
+            if lct in ("struct econf_file", "econf_file") and not (rhs.strip().k in ("CallExpr", "CompoundLiteralExpr", "InitListExpr")):
+                # a whole object copied member by member: every member that owns memory must be given a value of its own afterwards
+                t4 += 1
+                inst = "%s: %s = %s" % (f.name, render(l), render(rhs)[:60])
+                owning = [x["name"] for x in prog.record("econf_file")["fields"] if (x.get("ct") or "").endswith("*")]
+                dest = render(l)
+                dest_forms = set([dest + ".", "(" + dest + ").", (dest[1:] if dest.startswith("*") else "&" + dest) + "->", "(" + (dest[1:] if dest.startswith("*") else dest) + ")->"])
+                reset = set()
+                for l2, r2, st2, k2 in query.stores(f):
+                    t2 = l2.strip()
+                    if k2 == "=" and t2.k == "MemberExpr" and t2.j.get("rec") == "econf_file" and f.cfg.node_dominates(st, st2):
+                        base2 = render(t2)[: -len(t2.j.get("member", ""))]
+                        if base2 in dest_forms and r2 is not None and (r2.is_null_const() or ma.is_fresh_expr(f, r2.strip(), at=st2)[0]):
+                            reset.add(t2.j.get("member"))
+                shared = [x for x in owning if x not in reset]
+                if shared:
+                    ctx.fail("T4", inst, st.where, "the object is copied as a whole and %s keep%s pointing into the source: both objects own the same memory (changed "
+                             "or released through one, used or released again through the other)" % (", ".join("`%s`" % x for x in shared), "s" if len(shared) == 1 else ""),
+                             key="shallow-object:%s:%s" % (f.name, ",".join(shared)))
+                else:
+                    ctx.ok("T4", inst, st.where, "all %d owning members are given a value of their own afterwards" % len(owning))
+                continue
             if lct not in ("char *", "char **", "struct file_entry *", "struct file_entry", "const char *"):
                 continue
             root, d = path_depth(l)
